@@ -845,7 +845,7 @@ def fixed_cases() -> T.List[T.Dict[str, T.Any]]:
     names = ['l1', 'e1', 'e2', 'e3', 's1', 'n1']
     kw = lambda k, v: {'k': k, 'ty': 'val', 'py': v}  # noqa: E731
     seqs = [
-        [A('kw_set', 'e1', kws=[kw('build_by_default', False)]), A('kw_delete', 'e1', kws=[kw('install', None)]), A('src_add', 'e1', files=['d.c'])],
+        [A('kw_set', 'e1', kws=[kw('build_by_default', False), kw('install', False)]), A('kw_delete', 'e1', kws=[kw('install', None)]), A('src_add', 'e1', files=['d.c'])],
         [A('src_add', 'e1', files=['e.c']), A('src_rm', 'e1', files=['e.c']), A('src_rm', 'e1', files=['a.c'])],
         [A('src_rm', 'e3', files=['b.c']), A('src_add', 'e3', files=['b.c']), A('extra_files_add', 'e3', files=['NOTES.md'])],
         [A('kw_set', 'e2', kws=[kw('pie', True)]), A('src_add', 'e2', files=['d.c']), A('target_rm', 'e2')],
@@ -937,7 +937,7 @@ def features(c: T.Dict[str, T.Any], v: T.Dict[str, T.Any]) -> T.List[str]:
             out.append('file-without-final-newline')
         if clause == 'ProjectDiffers' and 'variables' in v.get('note', '') and cmd['kind'] != 'executable':
             out.append('non-executable')
-        if re.search(r'[^A-Za-z0-9_\- ]', cmd['t']):
+        if clause == 'DoesNotParse' and not out and re.search(r'[^A-Za-z0-9_\- ]', cmd['t']):
             out.append('name-not-an-identifier')
     if clause == 'ProjectDiffers' and cmd['op'] == 'extra_files_add':
         after = c['log'][step]['files']
@@ -1048,8 +1048,8 @@ def main(chk: Check) -> None:
     cfg = (FAM / 'Rewriter_MC.cfg').read_text().replace('MaxLen = 3', 'MaxLen = %d' % (3 if quick else 4))
     res = run_tlc(FAM, 'Rewriter_MC', cfg_text=cfg, timeout=3000, allow_violation=False)
     chk.add_tlc('Rewriter_MC', res)
-    ngen = int(os.environ.get('C17_NGEN', 260 if quick else 4200))          # development knobs; the tiers use the defaults
-    nmodel = int(os.environ.get('C17_NMODEL', 60 if quick else 700))
+    ngen = int(os.environ.get('C17_NGEN', 200 if quick else 2800))          # development knobs; the tiers use the defaults
+    nmodel = int(os.environ.get('C17_NMODEL', 50 if quick else 450))
     chk.rule = ('a case is one generated (or model) project with a sequence of 1-3 rewriter commands run through the real CLI; it is '
                 'non-trivial when at least one command changed a build file and every step was judged (distinct (project, commands) pairs).')
     specs = model_cases(chk, nmodel, 3)
